@@ -287,24 +287,34 @@ def stmt(prog, ctx, s, env):
 # ------------------------------------------------------------------ syntactic part of C03 (not solver-decided)
 
 def binder_uniqueness(node):
-    """after focusing, all binders along every path of a definition are distinct and distinct from the parameters"""
+    """after uniquify / focusing, all binders along every path of a definition are distinct and distinct from the
+    parameters.  Later passes match variables by their numeric id alone (`subst_sim` takes `(ID, Identifier)` pairs), so
+    distinctness is required of the IDS, not only of the (name, id) pairs, and a binder that kept the parser's id 0 has not
+    been uniquified at all."""
     problems = []
+
+    def check(b, bound, path, what):
+        if b[1] == 0:
+            problems.append(f"{path}: {what} {b[0]} still has id 0 after uniquify")
+        elif b[1] in bound:
+            problems.append(f"{path}: {what} {b[0]}_{b[1]}: id {b[1]} bound twice along a path")
 
     def walk(x, bound, path):
         if isinstance(x, rdebug.Node):
             y = unwrap(x)
             if y.tag == 'Mu':
                 b = ident(y['variable'])
-                if b in bound:
-                    problems.append(f"{path}: binder {b[0]}_{b[1]} bound twice along a path")
-                walk(y['statement'], bound | {b}, path)
+                check(b, bound, path, 'binder')
+                walk(y['statement'], bound | {b[1]}, path)
                 return
             if y.tag == 'Clause':
                 bs = [ident(v['var']) for v in y['context']['bindings']]
+                ids = [b[1] for b in bs]
                 for b in bs:
-                    if b in bound or bs.count(b) > 1:
-                        problems.append(f"{path}: clause binder {b[0]}_{b[1]} bound twice along a path")
-                walk(y['body'], bound | set(bs), path)
+                    check(b, bound, path, 'clause binder')
+                    if ids.count(b[1]) > 1:
+                        problems.append(f"{path}: clause binder {b[0]}_{b[1]}: id bound twice in one clause")
+                walk(y['body'], bound | set(ids), path)
                 return
             for v in list(y.values()) + list(y.args):
                 walk(v, bound, path)
@@ -312,6 +322,8 @@ def binder_uniqueness(node):
             for v in x:
                 walk(v, bound, path)
     for d in node['defs']:
-        params = {ident(b['var']) for b in d['context']['bindings']}
-        walk(d['body'], params, d['name']['name'])
+        ps = [ident(b['var']) for b in d['context']['bindings']]
+        for b in ps:
+            check(b, set(), d['name']['name'], 'parameter')
+        walk(d['body'], {b[1] for b in ps}, d['name']['name'])
     return problems
